@@ -347,3 +347,10 @@ pub fn vec_to_stream(l1: usize, l2: usize, cap: usize, drains: &[usize]) {
     witness!("probe done");
     std::mem::forget((b, rx, tx, out));
 }
+
+/// AuEncode in the enumerated situations (header partly written, output full, ...).
+pub fn au_encode(l: usize, cap_in: usize, cap_out: usize, sched: &[(usize, usize)], gone: bool) {
+    let input = sym_vec::<f32>(l + cap_in + 1);
+    let mk = |src: ReadStream<f32>| rustradio::au::AuEncode::new(src, rustradio::au::Encoding::Pcm16, 8000, 1);
+    verdicts_11_in(&mk, input, l, cap_in, cap_out, sched, gone, 5);
+}
